@@ -554,3 +554,42 @@ def rule_pairs_transpose(ctx) -> RuleResult:
     if n == 0:
         raise AnalysisError("no transpose(*order) with a looked-up order on a (dims, array) pair found (anchor: xarray._broadcast_size_one_dims)")
     return res
+
+
+# ---------------------------------------------------------------------------------------------
+# R-FORDER (C06, C01): a Fortran-order flatten (a speed-up: the broadcast labels come out sorted) is never taken for reductions that pick
+# members by position.  "first"/"last"/"nanfirst"/"nanlast" mean first/last in C (index) order on every engine; visiting the members of a group
+# in Fortran order changes which member that is whenever the group spans more than one row.  The branch that records order = "F" must be
+# guarded by a test that excludes the position-sensitive family (a negative atom that mentions _is_first_last_reduction or the names).
+def rule_forder(ctx) -> RuleResult:
+    res = RuleResult("R-FORDER", "Fortran-order flattening is excluded for reductions that pick members by position", min_instances=1)
+    from ..astutil import guard_facts
+    n = 0
+    for q, f in sorted(ctx.prog.funcs.items()):
+        if isinstance(f.node, ast.Lambda) or f.is_overload:
+            continue
+        pm = None
+        for c in calls_in(f.node):
+            name = c.func.attr if isinstance(c.func, ast.Attribute) else ""
+            o = kwarg(c, "order")
+            if name not in _FLATTENERS or not (isinstance(o, ast.Constant) and o.value == "F"):
+                continue
+            n += 1
+            # only functions that run named reductions afterwards are concerned
+            runs_reductions = any(isinstance(x, ast.Call) and norm(x.func) in ("generic_aggregate", "_get_aggregate") for x in ast.walk(f.node)) or "func" in f.params
+            if not runs_reductions:
+                res.inst(f"{q}: {norm(c)[:50]}: no named reduction runs on the flattened data", f"{q}|{norm(c)[:30]}")
+                continue
+            pm = pm or parents_map(f.node)
+            facts = guard_facts(c, pm)
+            excl = [at for at, pol in facts if not pol and ("_is_first_last_reduction" in at or ("first" in at and "last" in at))]
+            res.inst(f"{q}: {norm(c)[:50]} guarded by {sorted(at for at, _ in facts)[:4]}: position-sensitive reductions excluded: {bool(excl)}", f"{q}|{norm(c)[:30]}")
+            if not excl:
+                res.report(f"{q}|fortran-order-for-positional-reductions", f.where(c), q,
+                           f"'{norm(c)[:60]}' enumerates the members in Fortran order for every reduction this function runs, including first / last / nanfirst / nanlast: "
+                           "with labels that have a size-1 dimension and engine='flox' the 'first' member of a group is the first in column-major order "
+                           "(the other engines and the documented meaning use C order)")
+    if n == 0:
+        res.notes.append("no Fortran-order flatten in the package: rule not applicable")
+        res.min_instances = 0
+    return res
